@@ -8,6 +8,7 @@ effects the canonical assignments made on the path.  Coercions that do not chang
 inlined, so the normal form survives renaming, let-introduction, if/else nesting order of
 independent tests and `&`/`&&`.
 """
+import re
 from facts import (callee_is, callee, peel, src, strip_generics, children, is_local, _pat_binds,
                    try_operand, pat_src)
 
@@ -154,7 +155,7 @@ def paths(e, env=None, conds=frozenset(), effects=()):
                     def bind(p_, v_, en=en):
                         nonlocal ef
                         c = canon(v_, en)
-                        if p_.get('mut') or len(c) > 60 or '|' in c:
+                        if p_.get('mut') or len(c) > 60 or '|' in c or (re.search(r'\bself\.\w', c) and not c.endswith(')')):
                             # mutable or effectful / long initialiser: keep the name
                             en[p_['local']] = p_['name']
                             ef = ef + ('%s := %s' % (p_['name'], c),)
